@@ -38,15 +38,17 @@ Record req := { rk : kind; pt : nat; batch : nat; flt : fault }.
 Inductive filt := NoFilter | SortF (first last : nat) | CvarF (p : Q).
 Inductive est := Mean | Stddev.
 Record cfg := {
-  nreal : nat;               (* number of realizations, all with positive configured weight *)
+  nreal : nat;               (* number of realizations *)
   rmin : nat;                (* realization_min_success *)
   pmin : nat;                (* perturbation_min_success *)
   allow_nan : bool;          (* Optimizer.allow_nan *)
   maxf : option nat;         (* optimizer.max_functions *)
   cfilt : filt;              (* realization filter applied to objective and constraint *)
   cest : est;                (* function estimator *)
-  order : list nat           (* the realizations by ascending objective/constraint value *)
+  order : list nat;          (* the realizations by ascending objective/constraint value *)
+  zerow : list nat           (* the realizations whose configured weight is zero (all others: positive) *)
 }.
+Definition wpos (c : cfg) (r : nat) : bool := negb (existsb (Nat.eqb r) (zerow c)).
 
 (* ---- masks -------------------------------------------------------------------- *)
 Definition count_ok (l : list bool) : nat := length (filter negb l).
@@ -63,13 +65,13 @@ Definition failed_grad (c : cfg) (fm : list bool) (pm : list (list bool)) : list
 Definition ranked (c : cfg) (failed : list bool) : list nat :=
   filter (fun r => negb (failed_at failed r)) (order c).
 
-(* None: no filter, configured weights in force.  _sort_and_select keeps ranks first..last;
-   _get_cvar_weights_from_percentile ranks the largest values first, gives 1/n to the first
-   int(p*n) and the remainder p - n_var/n (when positive) to the next one. *)
+(* None: no filter, configured weights in force.  _sort_and_select keeps ranks first..last and gives them
+   their configured weight (positive or zero); _get_cvar_weights_from_percentile ranks the largest values
+   first, gives 1/n to the first int(p*n) and the remainder p - n_var/n (when positive) to the next one. *)
 Definition chosen (c : cfg) (failed : list bool) : option (list nat) :=
   match cfilt c with
   | NoFilter => None
-  | SortF a b => Some (firstn (S b - a) (skipn a (ranked c failed)))
+  | SortF a b => Some (filter (wpos c) (firstn (S b - a) (skipn a (ranked c failed))))
   | CvarF p =>
       let rk := rev (ranked c failed) in
       match length rk with
@@ -89,8 +91,10 @@ Definition filter_few (ch : option (list nat)) : bool :=
 
 (* count_nonzero of the normalised weights seen by the estimator: weights of failed realizations are
    zeroed, then divided by their sum; a zero sum turns every entry into NaN, which counts as nonzero *)
+Definition in_force (c : cfg) (ch : option (list nat)) (r : nat) : bool :=
+  match ch with None => wpos c r | Some _ => selected ch r end.
 Definition nz (c : cfg) (ch : option (list nat)) (failed : list bool) : nat :=
-  let act := length (filter (fun r => negb (failed_at failed r) && selected ch r) (seq 0 (nreal c))) in
+  let act := length (filter (fun r => negb (failed_at failed r) && in_force c ch r) (seq 0 (nreal c))) in
   if act =? 0 then nreal c else act.
 Definition is_stddev (e : est) : bool := match e with Stddev => true | Mean => false end.
 Definition min_stddev : nat := 2.     (* _MIN_STDDEV_REALIZATIONS, tied to Gen.Generated in Check/Chk_C14.v *)
@@ -234,59 +238,101 @@ Definition run_evaluator_step (c : cfg) (r : req) : outcome * list res * list ev
       end
   end.
 
-(* ---- the optimizer step with a nested optimization ---------------------------------
+(* ---- optimizer steps with nested optimizations, to any depth ------------------------
    EnsembleOptimizer._optimizer_callback runs the nested optimizer (DefaultOptimizerStep.
-   _run_nested_plan: the nested plan's function runs the inner optimizer step and returns the result
-   held by the inner plan's tracker) after the budget check and before the evaluation of every outer
-   request: nested plan aborted -> USER_ABORT, no result -> NESTED_OPTIMIZER_FAILED.  The tracker
-   keeps its result from one nested run to the next.  Outer requests are paired with the script of
-   their nested run. *)
+   _run_nested_plan: the nested plan's function runs the nested plan's optimizer step -- which may
+   itself have a nested optimization -- and returns the result held by that plan's tracker) after the
+   budget check and before the evaluation of every request: nested plan aborted -> USER_ABORT
+   (checked first), no result -> NESTED_OPTIMIZER_FAILED.  A tracker keeps its result from one nested
+   run to the next (the nested plans are objects shared by all runs).  A run is a tree: every request
+   carries the script of the nested run it triggers (None: the step has no nested optimization). *)
+Inductive nscript := NS (c : cfg) (items : list (req * option nscript)).
+
 (* a result the tracker can hold: function values that are present and not NaN *)
 Definition trackable (r : res) : bool :=
   match r_kind r with RF => r_has r && negb (r_allf r) | RG => false end.
 Definition has_result (d : list res) : bool := existsb trackable d.
 
-(* trace: events of the outer step, and whole nested runs (outcome, evaluation events) *)
-Inductive tr := TE (e : evt) | TInner (o : outcome) (evs : list evt).
+(* trace: events of the step itself, and whole nested runs (outcome, trace of the nested step) *)
+Inductive tr := TE (e : evt) | TInner (o : outcome) (sub : list tr).
 
-Fixpoint run_nested (c ic : cfg) (script : list (req * list req)) (completed : nat) (ca : cache) (has : bool)
-  : outcome * list res * list tr * (nat * bool) :=
-  match script with
-  | [] => (Exit OptFinished, [], [], (completed, has))
-  | (r, iscript) :: t =>
-      if over_budget c completed then (Exit MaxFunctions, [], [], (completed, has)) else
-      let '(io, id, ie, _) := run ic iscript 0 None in
-      let has' := has || has_result id in
-      match io with
-      | Raise => (Raise, id, [TInner io ie], (completed, has'))
-      | Exit UserAbort => (Exit UserAbort, id, [TInner io ie], (completed, has'))
-      | Exit _ =>
-          if negb has' then (Exit NestedFailed, id, [TInner io ie], (completed, has')) else
+(* what the outer optimizer makes of a finished nested run; h = the nested plan's tracker holds a result *)
+Definition nested_verdict (io : outcome) (h : bool) : option outcome :=
+  match io with
+  | Raise => Some Raise                                   (* the exception passes through every level *)
+  | Exit UserAbort => Some (Exit UserAbort)               (* nested plan aborted: checked before the result *)
+  | Exit _ => if h then None else Some (Exit NestedFailed)
+  end.
+
+(* (outcome, delivered results of all levels in delivery order, trace,
+    (tracker flags of the plans below this one - nearest first -, this run delivered a trackable result of its own)) *)
+Definition tres : Type := outcome * list res * list tr * (list bool * bool).
+
+Definition run_items (rec : nscript -> list bool -> tres) (c : cfg) :=
+  fix go (items : list (req * option nscript)) (completed : nat) (ca : cache) (hs : list bool) (own : bool)
+    {struct items} : tres :=
+  match items with
+  | [] => (Exit OptFinished, [], [], (hs, own))
+  | (r, sub) :: rest =>
+      if over_budget c completed then (Exit MaxFunctions, [], [], (hs, own)) else
+      let '(verdict, id, it, hs1) :=
+        match sub with
+        | None => (None, [], [], hs)
+        | Some st =>
+            let '(io, id, itr, (hst, iown)) := rec st (tl hs) in
+            let h := hd false hs || iown in
+            (nested_verdict io h, id, [TInner io itr], h :: hst)
+        end in
+      match verdict with
+      | Some o => (o, id, it, (hs1, own))
+      | None =>
           match eval_req c r ca with
-          | VRaise => (Raise, id, [TInner io ie; TE StartEval], (completed, has'))
-          | VAbort => (Exit UserAbort, id, [TInner io ie; TE StartEval], (completed, has'))
+          | VRaise => (Raise, id, it ++ [TE StartEval], (hs1, own))
+          | VAbort => (Exit UserAbort, id, it ++ [TE StartEval], (hs1, own))
           | VInside _ rs =>
-              (Exit TooFew, id ++ rs, [TInner io ie; TE StartEval; TE FinEval], (completed, has'))
+              (Exit TooFew, id ++ rs, it ++ [TE StartEval; TE FinEval], (hs1, own || has_result rs))
           | VResults rs n ca' =>
               if few_opt c rs then
-                (Exit TooFew, id ++ rs, [TInner io ie; TE StartEval; TE FinEval], (completed, has'))
+                (Exit TooFew, id ++ rs, it ++ [TE StartEval; TE FinEval], (hs1, own || has_result rs))
               else
-                let '(o, d, e, k) := run_nested c ic t (completed + n) ca' has' in
-                (o, id ++ rs ++ d, TInner io ie :: TE StartEval :: TE FinEval :: e, k)
+                let '(o, d, e, st') := go rest (completed + n) ca' hs1 (own || has_result rs) in
+                (o, id ++ rs ++ d, it ++ TE StartEval :: TE FinEval :: e, st')
           end
       end
   end.
 
-Fixpoint flat_tr (l : list tr) : list evt :=
-  match l with
-  | [] => []
-  | TE e :: t => e :: flat_tr t
-  | TInner o evs :: t => (StartOpt :: evs ++ closing o FinOpt) ++ flat_tr t
-  end.
+Fixpoint run_tree (t : nscript) (hs : list bool) {struct t} : tres :=
+  match t with NS c items => run_items run_tree c items 0 None hs false end.
 
-Definition run_nested_step (c ic : cfg) (script : list (req * list req)) : outcome * list res * list evt :=
-  let '(o, d, t, _) := run_nested c ic script 0 None false in
-  (o, d, StartOpt :: flat_tr t ++ closing o FinOpt).
+(* the events seen by an observer of all event types *)
+Fixpoint flat_one (x : tr) : list evt :=
+  match x with
+  | TE e => [e]
+  | TInner o sub => StartOpt :: flat_map flat_one sub ++ closing o FinOpt
+  end.
+Definition flat_tr (l : list tr) : list evt := flat_map flat_one l.
+
+Definition tree_step (t : nscript) (hs : list bool) : outcome * list res * list evt :=
+  let '(o, d, l, _) := run_tree t hs in
+  (o, d, StartOpt :: flat_tr l ++ closing o FinOpt).
+Definition run_tree_step (t : nscript) : outcome * list res * list evt := tree_step t [].
+
+(* a step without nested optimization as a tree *)
+Definition leaf (c : cfg) (script : list req) : nscript := NS c (map (fun r => (r, None)) script).
+
+(* Plan.aborted of the nested plans after the step: the plan j+1 levels below the owner of the trace is aborted
+   exactly when one of its runs ended with USER_ABORT *)
+Fixpoint ab_depth (j : nat) (x : tr) : bool :=
+  match x with
+  | TE _ => false
+  | TInner o sub =>
+      match j with
+      | O => match o with Exit UserAbort => true | _ => false end
+      | S j' => existsb (ab_depth j') sub
+      end
+  end.
+Definition aborted_below (depth : nat) (l : list tr) : list bool :=
+  map (fun j => existsb (ab_depth j) l) (seq 0 depth).
 
 (* ---- numeric values of the enums (compared with Gen.Generated in the checker) ---- *)
 Definition code_name (c : code) : string :=
